@@ -210,6 +210,9 @@ def origin_text(e):
 
 # ------------------------------------------------------------------------------------------------
 # discharges
+ACCESSOR_SKIP = r'^tokinizer::tools::|^tools::|::parse$|^compiler::|^formatter::'
+
+
 class Discharger:
     def __init__(self, ctx, user_data_unconstrained=False):
         self.ctx = ctx
@@ -454,6 +457,10 @@ class Discharger:
             if r[0] >= rng[0] and r[1] <= rng[1]:
                 return ('interval', '%s in [%d, %d] fits %s' % (bop, r[0], r[1], ty))
         # index-like: usize counter / length plus a small constant
+        if ty == 'usize' and bop == 'Add' and b.kind == 'closure':
+            g = self.per_element_counter(ob)
+            if g:
+                return g
         if ty == 'usize' and bop == 'Add':
             cs = strip(c_e)
             if cs[0] == 'const' and isinstance(cs[2], int) and 0 <= cs[2] <= 16 and self.index_like(b, t['ops'][0], a_e):
@@ -467,6 +474,92 @@ class Discharger:
                 return g
         if ty == 'usize' and bop == 'Mul':
             pass
+        return None
+
+    PER_ELEMENT = re.compile(r'(Vec::<.*>::(retain|retain_mut|dedup_by|dedup_by_key)|Iterator::(for_each|map|filter|filter_map|position|any|all|find|'
+                             r'find_map|inspect|take_while|skip_while|map_while|try_for_each|partition)|slice::<impl \[T\]>::(iter|sort_by_key))$')
+
+    def per_element_counter(self, ob):
+        """`counter += 1` inside a closure, where counter is a variable of the creating function captured by mutable reference:
+        the variable starts at a small constant, nothing but this closure touches it, the closure has no loop and this one
+        increment, and the closure is handed to a std adaptor that invokes it at most once per element of a collection.
+        The counter is then at most init + len <= isize::MAX + init, which fits usize."""
+        b = ob.body
+        t = ob.term
+        cs = strip(b.expr(t['ops'][1]))
+        if not (cs[0] == 'const' and cs[2] == 1) or b.loops():
+            return None
+        p = opplace(t['ops'][0])
+        if not p or p['proj'] != ['deref']:
+            return None
+        # the operand is *(upvar k): follow the local back to (*_1).#k
+        ds = b.defs().get(p['local'], [])
+        if len(ds) != 1 or ds[0][1] != 'stmt' or ds[0][2]['rv'] != 'use':
+            return None
+        q = opplace(ds[0][2]['ops'][0])
+        if not q or q['local'] != 1 or len(q['proj']) != 2 or q['proj'][0] != 'deref' or not isinstance(q['proj'][1], dict):
+            return None
+        fld = q['proj'][1].get('field', '')
+        if not re.fullmatch(r'.*#?\d+', fld):
+            return None
+        k = int(re.search(r'(\d+)$', fld).group(1))
+        # one increment site of that upvar in this closure
+        n_inc = 0
+        for i in b.normal_blocks:
+            tt = b.blocks[i]['term']
+            if tt['k'] == 'assert' and tt.get('akind') == 'Overflow' and tt.get('bop') == 'Add':
+                pp = opplace(tt['ops'][0])
+                if pp and pp['proj'] == ['deref']:
+                    d2 = b.defs().get(pp['local'], [])
+                    if len(d2) == 1 and d2[0][1] == 'stmt' and opplace(d2[0][2]['ops'][0]) == q:
+                        n_inc += 1
+        if n_inc != 1:
+            return None
+        parent = self.facts.bodies.get(b.rec.get('parent'))
+        if parent is None:
+            return None
+        for i in parent.normal_blocks:
+            for st in parent.blocks[i]['stmts']:
+                if st['k'] == 'assign' and st['rv'] == 'aggr' and st['adt'] == 'closure:' + b.path:
+                    if k >= len(st['ops']):
+                        return None
+                    cap = opplace(st['ops'][k])
+                    if not cap or cap['proj']:
+                        return None
+                    cd = parent.defs().get(cap['local'], [])
+                    if len(cd) != 1 or cd[0][1] != 'stmt' or cd[0][2]['rv'] != 'ref' or not cd[0][2].get('mut'):
+                        return None
+                    var = opplace(cd[0][2]['ops'][0])
+                    if not var or var['proj']:
+                        return None
+                    vl = var['local']
+                    inits = parent.defs().get(vl, [])
+                    if len(inits) != 1 or inits[0][1] != 'stmt' or inits[0][2]['rv'] != 'use' or 'const' not in inits[0][2]['ops'][0]:
+                        return None
+                    init = inits[0][2]['ops'][0]['const'].get('val')
+                    if not isinstance(init, int) or not 0 <= init <= 1 << 32:
+                        return None
+                    # no other mutable borrow / assignment of the variable in the parent
+                    n_mut = 0
+                    for j in parent.normal_blocks:
+                        for s2 in parent.blocks[j]['stmts']:
+                            if s2['k'] == 'assign' and s2['rv'] == 'ref' and s2.get('mut'):
+                                o2 = opplace(s2['ops'][0])
+                                if o2 and o2['local'] == vl:
+                                    n_mut += 1
+                    if n_mut != 1:
+                        return None
+                    # where the closure value goes: one call of a per-element adaptor
+                    clo = st['lhs']['local']
+                    users = []
+                    for j in parent.normal_blocks:
+                        tt = parent.blocks[j]['term']
+                        if tt['k'] == 'call' and any((opplace(a) or {}).get('local') == clo for a in tt['args']):
+                            users.append(tt)
+                    if len(users) == 1 and users[0].get('callee') and self.PER_ELEMENT.search(users[0]['callee']['path']):
+                        return ('per-element-counter', 'a counter starting at %d, incremented once per element by the closure given to %s' % (
+                            init, users[0]['callee']['path'].rsplit('::', 1)[1]))
+                    return None
         return None
 
     def index_like(self, b, operand, e):
@@ -800,6 +893,21 @@ class Discharger:
             t = cond_str(d, v)
             if t not in out:
                 out.append(t)
+        # the same conditions with small crate-local accessors (line_count(), get_index(), ..) replaced by what they return
+        from .facts import inline_calls
+        for shallow in ('mut', False):
+            b._shallow = shallow
+            try:
+                cs2 = b.conditions(ob.bid)
+            finally:
+                b._shallow = False
+            for (_, d, v) in cs2:
+                try:
+                    t = cond_str(inline_calls(self.facts, d, depth=1, skip=ACCESSOR_SKIP), v)
+                except RecursionError:
+                    continue
+                if t not in out:
+                    out.append(t)
         return out + [c for c in b.cond_text(ob.bid) if c not in out]
 
     def index_guard(self, ob, pos_only=False, allow_equal=False):
